@@ -507,7 +507,7 @@ func (c *converter) Input(prompt string, valueUsed bool) (string, error) {
 	if len(prompt) > 0 {
 		prompt = fmt.Sprintf(" -p \"%s\"", prompt)
 	}
-	c.addLine(fmt.Sprintf("read%s %s", prompt, helper))
+	c.addLine(fmt.Sprintf("IFS= read -r%s %s", prompt, helper)) // Keep leading/trailing blanks and backslashes of the input.
 	return c.VarEvaluation(helper, valueUsed, false)
 }
 
